@@ -33,6 +33,7 @@ ASSUMPTIONS = [
 ]
 _REG = ['%s/%s' % (a, b) for a in ('Tbelow', 'Tin', 'Tabove') for b in ('Pbelow', 'Pin', 'Pabove')]
 REQUIRED = {('region:' + r): 0.03 for r in _REG}
+REQUIRED.update({'history:other-mode': 0.1, 'history:same-mode': 0.1})
 
 
 
@@ -80,9 +81,13 @@ def _case(draw):
         a = draw(st.integers(0, nW - 1))
         b = draw(st.integers(a, nW - 1))
         sub = [a, b]
+    # history on the live object before the judged query: an earlier query in the other mode followed by
+    # set_interpolation_mode, or an earlier query elsewhere in the same mode
+    warm = draw(st.sampled_from([None, 'other-mode', None, 'same-mode']))
+    wpt = draw(st.tuples(st.floats(0.05, 0.95), st.floats(0.05, 0.95)))
     return {'T0': T0, 'dT': dT, 'lP0': P0, 'dlP': dP, 'nW': nW, 'base': base,
             'delta': delta, 'ng': ng, 'mode': mode, 'sub': sub,
-            'tpt': pt[0], 'ppt': pt[1]}
+            'tpt': pt[0], 'ppt': pt[1], 'warm': warm, 'wpt': list(wpt)}
 
 
 def strategy(tier):
@@ -143,11 +148,25 @@ def check(case):
     out.cls('kindT:' + case['tpt'][0])
     out.cls('kindP:' + case['ppt'][0])
 
+    warm = case.get('warm')
+    mode0 = mode if warm != 'other-mode' else {'linear': 'exp', 'exp': 'linear'}[mode]
     if ng:
         w = np.ones(ng) / ng
-        op = synth.SynthKTable('XX', wn, Tg, Pg, tab, w, mode=mode)
+        op = synth.SynthKTable('XX', wn, Tg, Pg, tab, w, mode=mode0)
     else:
-        op = synth.SynthOpacity('XX', wn, Tg, Pg, tab, mode=mode)
+        op = synth.SynthOpacity('XX', wn, Tg, Pg, tab, mode=mode0)
+    if warm:
+        out.cls('history:' + warm)
+        fT, fP = case['wpt']
+        Tw = Tg[0] + fT * (Tg[-1] - Tg[0]) if len(Tg) > 1 else Tg[0] * (0.5 + fT)
+        Pw = 10.0 ** (lp[0] + fP * (lp[-1] - lp[0])) if len(Pg) > 1 else Pg[0] * (0.5 + fP)
+        try:
+            with np.errstate(all='ignore'):
+                cut(out, 'evaluates', op.opacity, Tw, Pw, None)
+                if warm == 'other-mode':
+                    cut(out, 'set_interpolation_mode', op.set_interpolation_mode, mode)
+        except CutError:
+            return out
     sub = case['sub']
     wsel = slice(None)
     wngrid = None
@@ -252,8 +271,10 @@ def _exp_with_perturb(flat, Tg, Pg, T, P, da, db):
             return flat[p0, ti].copy()
         f = (x - lp[p0]) / (lp[p1] - lp[p0])
         return flat[p0, ti] + f * (flat[p1, ti] - flat[p0, ti])
-    a = np.maximum(along_p(t0) + (da if p0 != p1 else 0.0), 1e-320)
-    b = np.maximum(along_p(t1) + (db if p0 != p1 else 0.0), 1e-320)
+    # the perturbation also applies when P sits exactly on a node: the code still evaluates
+    # x_lo - (x_lo - x_hi)*1.0 from the neighbouring node, which cancels relative to the larger of the two
+    a = np.maximum(along_p(t0) + da, 1e-320)
+    b = np.maximum(along_p(t1) + db, 1e-320)
     w = (1.0 / Tg[t0] - 1.0 / T) / (1.0 / Tg[t0] - 1.0 / Tg[t1])
     with np.errstate(all='ignore'):
         return a * np.exp(w * np.log(b / a)) / 1e4
